@@ -330,3 +330,35 @@ pub proof fn lemma_val_nonneg_all()
 {
     assert forall|s: Seq<Word>| 0 <= #[trigger] valn(s, s.len() as int) by { lemma_val_bound(s); }
 }
+
+/// `t -= y` cannot borrow when the exact difference is non-negative
+pub proof fn lemma_no_borrow(v1: int, d: int, b: bool, p: int)
+    requires 0 <= v1 < p, 0 <= d, v1 - b2i(b) * p == d,
+    ensures !b, v1 == d,
+{
+    if b {
+        assert(b2i(b) * p == p) by (nonlinear_arith) requires b2i(b) == 1;
+    } else {
+        assert(b2i(b) * p == 0) by (nonlinear_arith) requires b2i(b) == 0;
+    }
+}
+
+/// `t += y` (word carry r >= 0) cannot carry when the exact sum fits
+pub proof fn lemma_no_carry(v1: int, y: int, r: int, p: int)
+    requires 0 <= v1 < p, 0 <= y < p, v1 + r * p == y,
+    ensures r == 0, v1 == y,
+{
+    lemma_zero_acc_no_carry(v1, y, r, p);
+}
+
+/// storing into a word at or above n does not change the low n words (stated once for all sequences: it lets the
+/// prover identify `e[..n]` after `e[n] = kernel(&mut e[..n], ..)` with the slice the kernel returned)
+pub proof fn lemma_update_keeps_low()
+    ensures forall|s: Seq<Word>, i: int, v: Word, n: int| 0 <= n <= i < s.len()
+        ==> #[trigger] s.update(i, v).subrange(0, n) == s.subrange(0, n),
+{
+    assert forall|s: Seq<Word>, i: int, v: Word, n: int| 0 <= n <= i < s.len()
+        implies #[trigger] s.update(i, v).subrange(0, n) == s.subrange(0, n) by {
+        assert(s.update(i, v).subrange(0, n) =~= s.subrange(0, n));
+    }
+}
